@@ -186,10 +186,11 @@ class HObj:
 @dataclass
 class HList:
     items: Optional[list] = None  # concrete spine of Vals
-    seq: Any = None  # or symbolic Seq(U)
+    seq: Any = None  # or symbolic Seq(U) prefix ...
+    tail: list = field(default_factory=list)  # ... followed by concretely appended Vals
 
     def copy(self):
-        return HList(None if self.items is None else list(self.items), self.seq)
+        return HList(None if self.items is None else list(self.items), self.seq, list(self.tail))
 
 
 @dataclass
